@@ -149,10 +149,14 @@ def pred_allpass(c):
     fdx = c['lam'] * c['efl'] / (M * c['dx'])
     sh = (c['shift'][0] * fdx, c['shift'][1] * fdx)
     mask = np.ones((M, M))
+    fdx_arg = fdx
+    if c.get('mask_wf'):
+        # the documented alternative: the mask is a Wavefront that carries its own sampling, fpm_dx is not passed
+        mask, fdx_arg = pr.Wavefront(mask.astype(complex), c['lam'], fdx, 'psf'), None
     if c.get('wavefront'):
-        out = pr.Wavefront(f, c['lam'], c['dx']).to_fpm_and_back(c['efl'], mask, fdx, method=c['method'], shift=sh).data
+        out = pr.Wavefront(f, c['lam'], c['dx']).to_fpm_and_back(c['efl'], mask, fdx_arg, method=c['method'], shift=sh).data
     else:
-        out = pr.to_fpm_and_back(f, c['dx'], c['efl'], c['lam'], mask, fdx, shift=sh, method=c['method'])
+        out = pr.to_fpm_and_back(f, c['dx'], c['efl'], c['lam'], mask, fdx_arg, shift=sh, method=c['method'])
     err = _relerr(out, f)
     return None if err <= TOL else f'all-pass mask on a band-complete {M}x{M} grid with shift {c["shift"]} samples does not return the field (rel. err {err:.3g})'
 
@@ -196,7 +200,10 @@ def pred_babinet_wavefront(c):
     B = _mask(c)
     lyot = _field(c['seed'] + 11, f.shape) if c.get('lyot') else None
     wf = pr.Wavefront(f, c['lam'], c['dx'])
-    out = wf.babinet(c['efl'], lyot, B, c['fdx'], method=c['method']).data
+    if c.get('mask_wf'):
+        out = wf.babinet(c['efl'], lyot, pr.Wavefront(np.asarray(B, dtype=complex), c['lam'], c['fdx'], 'psf'), None, method=c['method']).data
+    else:
+        out = wf.babinet(c['efl'], lyot, B, c['fdx'], method=c['method']).data
 
     def T(msk):
         return pr.to_fpm_and_back(f, c['dx'], c['efl'], c['lam'], msk, c['fdx'], method=c['method'])
@@ -262,7 +269,8 @@ def gen_allpass(rng, hi, i):
     lam, efl, dx = _optics(rng)
     sh = SHIFTS[int(rng.integers(len(SHIFTS)))] if rng.integers(4) else (0, 0)
     return {'m': m, 'n': n, 'M': M, 'lam': lam, 'efl': efl, 'dx': dx, 'shift': list(sh), 'fdx': lam * efl / (M * dx),
-            'method': 'czt' if rng.integers(2) else 'mdft', 'seed': int(rng.integers(1 << 30)), 'wavefront': bool(rng.integers(2))}
+            'method': 'czt' if rng.integers(2) else 'mdft', 'seed': int(rng.integers(1 << 30)), 'wavefront': bool(rng.integers(2)),
+            'mask_wf': bool(rng.integers(4) == 0)}
 
 
 def gen_fpm(rng, hi, i):
@@ -276,7 +284,8 @@ def gen_fpm(rng, hi, i):
     sh = SHIFTS[int(rng.integers(len(SHIFTS)))] if rng.integers(3) else (0, 0)
     return {'m': m, 'n': n, 'My': My, 'Mx': Mx, 'lam': lam, 'efl': efl, 'dx': dx, 'fdx': fdx, 'shift': list(sh),
             'method': 'czt' if rng.integers(2) else 'mdft', 'seed': int(rng.integers(1 << 30)),
-            'mask': ['real', 'complex', 'binary'][int(rng.integers(3))], 'lyot': bool(rng.integers(2))}
+            'mask': ['real', 'complex', 'binary'][int(rng.integers(3))], 'lyot': bool(rng.integers(2)),
+            'mask_wf': bool(rng.integers(4) == 0)}
 
 
 # ------------------------------------------------------------------------------------------------
@@ -460,6 +469,9 @@ def _small_scope():
                 for M in (max(m, n), max(m, n) + 1, max(m, n) + 2):
                     yield 'allpass', {'m': m, 'n': n, 'M': M, 'lam': lam, 'efl': efl, 'dx': dx, 'shift': list(sh),
                                       'fdx': lam * efl / (M * dx), 'method': method, 'seed': 3, 'wavefront': False}
+                    if M == max(m, n) + 1 and not any(sh):
+                        yield 'allpass', {'m': m, 'n': n, 'M': M, 'lam': lam, 'efl': efl, 'dx': dx, 'shift': list(sh),
+                                          'fdx': lam * efl / (M * dx), 'method': method, 'seed': 3, 'wavefront': True, 'mask_wf': True}
                 for direction in ('fwd', 'inv'):
                     c = {'dir': direction, 'm': m, 'n': n, 'M': n + 1, 'N': m + 2, 'lam': lam, 'efl': efl, 'dx': dx,
                          'dxo': 0.8 * lam * efl / (n * dx), 'shift': list(sh), 'method': method, 'seed': 3,
